@@ -298,6 +298,7 @@ static void dispatch(int na, char **a) {
   else if (OP("_pluq")) { NEED(5); RET(_mzd_pluq(M(a[1]), P(a[2]), P(a[3]), I(a[4]))); }
   else if (OP("_ple_naive")) { NEED(4); RET(_mzd_ple_naive(M(a[1]), P(a[2]), P(a[3]))); }
   else if (OP("_pluq_naive")) { NEED(4); RET(_mzd_pluq_naive(M(a[1]), P(a[2]), P(a[3]))); }
+  else if (OP("randomize")) { NEED(3); srandom((unsigned)I(a[2])); mzd_randomize(M(a[1])); } /* C10: overwrites its destination */
   else if (OP("_ple_russian")) { NEED(5); RET(_mzd_ple_russian(M(a[1]), P(a[2]), P(a[3]), I(a[4]))); }
   else if (OP("_pluq_russian")) { NEED(5); RET(_mzd_pluq_russian(M(a[1]), P(a[2]), P(a[3]), I(a[4]))); }
   /* ---------------- C04 TRSM ---------------- */
